@@ -41,7 +41,7 @@ func init() {
 			s := &C13Spec{Orders: genOrders(r, seed), TapeSeed: mix(seed, "tape"), MaxTrials: 200, MaxFailRate: 1e-9}
 			if r.Chance(0.4) {
 				s.MaxTrials = pick(r, []int{1, 2, 3, 5, 200, 200, 0, -1, 1000})
-				s.MaxFailRate = pick(r, []float64{1e-9, 1e-3, 0.5})
+				s.MaxFailRate = pick(r, []float64{1e-9, 1e-3, 0.5, 1, 2})
 			}
 			switch k := r.Intn(10); {
 			case k < 5:
@@ -188,7 +188,7 @@ func c13Char(c *Ctx, s *C13Spec) {
 	}
 	res := genOp(NewTape(TapeSpec{Mode: "choice", Seed: s.TapeSeed, Default: "random"}), rec)
 	c.Eval(1)
-	c.T(res.brief())
+	c.T(res.tkey())
 	nontrivial := len(m.Req) > 0 || cfg.Length < 1 || len(m.A) == 0 || m.Emptied > 0
 	if nontrivial {
 		c.Distinct(desc, "random")
@@ -268,7 +268,7 @@ func c13Char(c *Ctx, s *C13Spec) {
 	if p != nil && m.Emptied == 0 && cfg.Length >= 1 && cfg.Length <= 64 {
 		sp := under(NewTape(TapeSpec{Mode: "raw"}), func(r *OpResult) { r.F = float64(rec.SuccessProbability()) })
 		c.Eval(1)
-		c.T(sp.brief())
+		c.T(sp.tkey())
 		if sp.Kind != "ok" {
 			c.Violate("panic", "success-probability-panic", "%s: SuccessProbability() %s", desc, sp.brief())
 			return
@@ -329,7 +329,7 @@ func c13WL(c *Ctx, s *C13Spec) {
 	}
 	res := genOp(NewTape(TapeSpec{Mode: "choice", Seed: s.TapeSeed, Default: "random"}), g)
 	c.Eval(1)
-	c.T(res.brief())
+	c.T(res.tkey())
 	c.Distinct(desc, expect)
 	c.Count("expect_"+expect, 1)
 	if res.Kind == "panic" || res.Kind == "runaway" {
@@ -372,7 +372,7 @@ func c13Budget(c *Ctx, s *C13Spec) {
 	}
 	// the real alphabet order from a pilot generation
 	pilot := genOp(NewTape(TapeSpec{Mode: "choice", Seed: s.TapeSeed, Default: "random"}), rec)
-	c.T(pilot.brief())
+	c.T(pilot.tkey())
 	if pilot.Kind != "ok" || len(pilot.Tape.CharLists) == 0 {
 		c.Count("budget_pilot_"+pilot.Kind, 1)
 		return
@@ -415,7 +415,7 @@ func c13Budget(c *Ctx, s *C13Spec) {
 	// every candidate misses a requirement
 	allFail := genOp(NewTape(TapeSpec{Mode: "choice", Choices: rep(bad, s.MaxTrials+3), Default: "zero"}), rec)
 	c.Eval(1)
-	c.T(allFail.brief())
+	c.T(allFail.tkey())
 	c.Distinct(desc, "all-fail")
 	c.Probe("all_attempts_fail_stream", 1)
 	if allFail.Kind == "panic" || allFail.Kind == "runaway" {
@@ -446,7 +446,7 @@ func c13Budget(c *Ctx, s *C13Spec) {
 	// candidate number MaxTrials is the first good one
 	lastGood := genOp(NewTape(TapeSpec{Mode: "choice", Choices: append(rep(bad, s.MaxTrials-1), good...), Default: "zero"}), rec)
 	c.Eval(1)
-	c.T(lastGood.brief())
+	c.T(lastGood.tkey())
 	c.Distinct(desc, "last-good")
 	c.Probe("success_on_last_permitted_attempt_stream", 1)
 	wantPw := ""
